@@ -5,6 +5,7 @@ import (
 	"fmt"
 
 	"github.com/kstenerud/go-concise-encoding/ce"
+	"github.com/kstenerud/go-concise-encoding/ce/events"
 	"github.com/kstenerud/go-concise-encoding/configuration"
 	"pgregory.net/rapid"
 
@@ -78,6 +79,8 @@ func genC16(t *rapid.T, ctx *Ctx) interface{} {
 				// the same document once more: identifiers (markers, record types) defined by an earlier
 				// document must be free again
 				op.Events = ev.Clone(c.Ops[i-1].Events)
+			} else if rapid.IntRange(0, 3).Draw(t, "keydoc") == 0 {
+				op.Events = c16KeyDoc(t)
 			} else {
 				op.Events = gen.Document(t, evOpts)
 			}
@@ -93,6 +96,41 @@ func genC16(t *rapid.T, ctx *Ctx) interface{} {
 		c.Ops = append(c.Ops, op)
 	}
 	return c
+}
+
+var c16KeyTexts = []string{"a", "ab", "abc", "b", "bc", "c", "xy", "xyz", "z", "aé", "é", "éz"}
+
+// c16KeyDoc draws a map whose string / resource-ID keys come from a small pool of texts that are
+// prefixes and suffixes of one another, each key whole or chunked (cut anywhere, also inside a
+// character); duplicates are allowed, so the stream may be invalid. Together with the truncating
+// mutations this leaves partly delivered keys behind in an instance, and the next document shows whether
+// anything of them survives: a key set, a partial key, or a partial character.
+func c16KeyDoc(t *rapid.T) []ev.Event {
+	evs := []ev.Event{{K: ev.BD}, {K: ev.Version}, {K: ev.Map}}
+	n := rapid.IntRange(1, 4).Draw(t, "nkeys")
+	for i := 0; i < n; i++ {
+		text := []byte(rapid.SampledFrom(c16KeyTexts).Draw(t, "ktext"))
+		at := events.ArrayTypeString
+		if rapid.IntRange(0, 4).Draw(t, "krid") == 0 {
+			at = events.ArrayTypeResourceID
+		}
+		if rapid.Bool().Draw(t, "kchunked") {
+			evs = append(evs, ev.Event{K: ev.ArrayBegin, AT: at})
+			var cuts []int
+			for j, m := 0, rapid.IntRange(0, 2).Draw(t, "kcuts"); j < m; j++ {
+				cuts = append(cuts, rapid.IntRange(0, len(text)).Draw(t, "kcut"))
+			}
+			var ds []int
+			if len(text) > 1 && rapid.Bool().Draw(t, "kds") {
+				ds = append(ds, rapid.IntRange(1, len(text)-1).Draw(t, "kdsplit"))
+			}
+			evs = append(evs, c12Chunks(text, cuts, ds...)...)
+		} else {
+			evs = append(evs, ev.Event{K: ev.Array, AT: at, U: uint64(len(text)), Bs: text})
+		}
+		evs = append(evs, ev.Event{K: ev.Int, I: int64(i)})
+	}
+	return append(evs, ev.Event{K: ev.End}, ev.Event{K: ev.ED})
 }
 
 // c16Doc builds the (possibly damaged) document of an operation.
